@@ -94,7 +94,7 @@ CLAIMED = {
         text='Theorems: (a) over the method-resolution tables regenerated from the live classes, every non-extension method of each contrib renderer '
              'resolves to the class that supplies it for HtmlRenderer (kernel-checked finite sweep), constructors forward **kwargs; (b) for ALL token '
              'trees and option sets, rendering by method resolution over the HTML model equals the HTML model wherever the renderer\'s own overrides '
-             'are not reached (Toc: every tree; MathJax: + script line); (c) a token type that finds nothing does not change inline tokenization. '
+             'are not reached (Toc: every tree; MathJax: + script line); (c) a token type that finds nothing does not change inline tokenization, and the extension tokens do find nothing on a text without their trigger characters (every match of Math.pattern consumes a $, every match of GithubWiki.pattern a [, a | and a ]: the verified `needs` analysis of the regex engine on the regenerated patterns). '
              'Extracted model vs the four real renderers (real Pygments highlight supplied) on all streams; oracle = contrib output vs HtmlRenderer output.',
         note='Trusted: Coq kernel, extraction, gen_dispatch.py (inspect/ast), hand-written model of the four overrides, HTML model of C08. '
              'That a pattern cannot match without its trigger character is checked on the implementation only.',
